@@ -97,7 +97,7 @@ class Ctx:
     # ------------------------------------------------------------------ streams
     def stream(self, name, lines, profile="release", spec_mode="eq", exhaustive=False,
                nontrivial=lambda tag: tag not in ("x", "c", "-", ""), chunk_timeout=300, per_line_timeout=5.0,
-               impl_post=None):
+               impl_post=None, judge=None):
         """run lines on implementation and model; compare impl/model (correspondence) and impl/spec (oracle)."""
         if not lines:
             return [], []
@@ -125,6 +125,9 @@ class Ctx:
             self.tags[name + ":" + tag] += 1
             if nontrivial(tag):
                 self.nontrivial.add(ln)
+            if im_c == "SKIP" or m == "SKIP":
+                st["skipped"] = st.get("skipped", 0) + 1   # not executed: too many aborts/hangs in this chunk already
+                continue
             if m == "bad-op" or im_c == "bad-op":
                 self.broken.append({"what": "protocol error", "line": ln, "impl": im, "model": mo})
                 continue
@@ -156,6 +159,22 @@ class Ctx:
                         st["oracle_fail"] += 1
                         self.failures.append(Failure("oracle", name, ln, im, m, sp))
                 # impl != model: judged separately by the caller (judge stream)
+        if spec_mode == "ok" and judge is not None:
+            # second pass: the implementation's own answers that differ from the model's are judged by the
+            # property's predicate (the verdict printed with the model's answer does not apply to them)
+            pend = []
+            for ln, im, mo in zip(lines, impl, mod):
+                m = mo.split("\t")[0]
+                if im != m and im not in ("PANIC", "ABORT", "HANG", "SKIP", "bad-op") and m not in ("FUEL", "bad-op"):
+                    jl = judge(ln, im)
+                    if jl:
+                        pend.append((ln, im, m, jl))
+            if pend:
+                jo = run.run_lines(run.drv_bin(), [p[3] for p in pend], "j-%s-%s" % (self.pid, name), chunk_timeout, 30.0)
+                for (ln, im, m, jl), o in zip(pend, jo):
+                    if not o.startswith("ok=1"):
+                        st["oracle_fail"] += 1
+                        self.failures.append(Failure("oracle", name, ln, im, m, o.split("\t")[0], "judged by the property's predicate: " + jl))
         return impl, mod
 
     def fail(self, kind, stream, line, impl, expected, note=""):
